@@ -200,6 +200,13 @@ def facts(formulas):
     for i in range(n):
         for j in range(i + 1, n):
             out.extend(_ompair(om_l[i], om_l[j]))
+    # applications to a numeral: the value itself (the closed form evaluated in Python - pyvc/calmodel.py, the mirror of the closed
+    # form that the lemma library is proved from and that is validated against datetime on every run)
+    from . import calmodel
+    for a in om_l:
+        v = z3.simplify(a)
+        if z3.is_int_value(v) and T_MIN <= v.as_long() <= T_MAX:
+            out.append(OM(a) == calmodel.om(v.as_long()))
     return out
 
 
